@@ -159,7 +159,12 @@ impl JobResult {
         if self.kind == "Hang" {
             return self.read_err.is_some() || self.open_err.is_some();
         }
-        self.write_done && self.eof && self.read == self.size && self.bad_at.is_none()
+        // The writer's shutdown() waits for the acknowledgement of the FIN.  When the reading application has
+        // everything (all bytes + end of stream) the scenario closes the connection; a shutdown() that is still
+        // waiting for that last acknowledgement then ends with the application close.  The transfer is complete
+        // all the same (every byte written, read and verified); a shutdown that never returns stays incomplete.
+        let cut_by_own_close = self.wrote == self.size && self.write_err.as_deref().is_some_and(|e| e.starts_with("shutdown:") && e.contains("Application error"));
+        (self.write_done || cut_by_own_close) && self.eof && self.read == self.size && self.bad_at.is_none()
     }
     pub fn to_json(&self) -> Value {
         json!({"kind": self.kind, "sid": self.sid, "size": self.size, "wrote": self.wrote, "write_done": self.write_done,
